@@ -7,8 +7,8 @@
 #include "replay_util.hpp"
 using namespace ccl; using namespace ccl::semantic;
 using ccl::object::StructuredData;
-struct Snap { bool has; StructuredData v; };
-static Snap snap(RSModel& m, EntityUID d) { auto o = m.Values().SDataFor(d); Snap s{ o.has_value(), o.has_value() ? o.value() : StructuredData{} }; return s; }
+struct Snap { bool has; StructuredData v; std::optional<bool> st; };
+static Snap snap(RSModel& m, EntityUID d) { auto o = m.Values().SDataFor(d); Snap s{ o.has_value(), o.has_value() ? o.value() : StructuredData{}, m.Values().StatementFor(d) }; return s; }
 static int g_stale = 0;
 // generic stale check: constituents in `watch` that show a value now must show the same value after RecalculateAll
 static void check_stale(RSModel& m, const std::vector<EntityUID>& watch, const char* what) {
@@ -17,6 +17,7 @@ static void check_stale(RSModel& m, const std::vector<EntityUID>& watch, const c
   for (size_t i = 0; i < watch.size(); ++i) {
     Snap after = snap(m, watch[i]);
     if (before[i].has) EXPECT(after.has && before[i].v == after.v, "%s: constituent #%zu kept a calculated value after the change that recalculation does not reproduce (stale)", what, (size_t)watch[i]);
+    if (before[i].st.has_value()) EXPECT(after.st.has_value() && before[i].st.value() == after.st.value(), "%s: constituent #%zu kept a truth value after the change that recalculation does not reproduce (stale)", what, (size_t)watch[i]);
   }
 }
 // scenario 1: chain of terms X1 -> D1 -> D2
@@ -25,17 +26,18 @@ static int scenario_terms(const std::string& g, int variant = 0) {
   const auto x1 = m.Emplace(CstType::base), x2 = m.Emplace(CstType::base);
   const auto d1 = m.Emplace(CstType::term, "X1");
   const auto d2 = m.Emplace(CstType::term, "D1\xE2\x88\xAA" "D1");
+  const auto a1 = m.Emplace(CstType::axiom, "card(D1)=2");
   m.Values().SetBasicText(x1, TextInterpretation{ { "a", "b" } });
   m.Values().SetBasicText(x2, TextInterpretation{ { "c" } });
   m.Calculations().RecalculateAll();
   if (!m.Values().SDataFor(d2).has_value()) { std::printf("scenario did not calculate D2; cannot replay\n"); return 2; }
-  std::vector<EntityUID> watch{ d1, d2 };
-  if (g == "pr_erase") { m.Erase(d1); watch = { d2 }; }
-  else if (g == "pr_setexpr") { m.SetExpressionFor(d1, "X2"); watch = { d2 }; }
+  std::vector<EntityUID> watch{ d1, d2, a1 };
+  if (g == "pr_erase") { m.Erase(d1); watch = { d2, a1 }; }
+  else if (g == "pr_setexpr") { m.SetExpressionFor(d1, "X2"); watch = { d2, a1 }; }
   else if (g == "pr_setbasictext" && variant == 0) { TextInterpretation t{}; t.SetInterpretantFor(5, "p"); t.SetInterpretantFor(7, "q"); m.Values().SetBasicText(x1, t); }   // other keys
   else if (g == "pr_setbasictext") { const auto* old = m.Values().TextFor(x1); if (old == nullptr) return 2; TextInterpretation t = *old; t.PushBack("appended"); m.Values().SetBasicText(x1, t); }   // same keys and one more
   else if (g == "pr_addbasic") { m.Values().AddBasicElement(x1, "z"); }
-  else if (g == "pr_resetdata") { m.Values().ResetDataFor(x1); }
+  else if (g == "pr_resetdata" || g == "pr_resetfor") { m.Values().ResetDataFor(x1); }
   else return 2;
   check_stale(m, watch, "terms");
   return 0;
